@@ -37,6 +37,9 @@ class MemoryAccess:
         :param data: Data of the PDU
         """
         if pgn == j1939.ParameterGroupNumber.PGN.DM14:
+            if len(data) != 8:
+                # truncated: the state machines below index all 8 bytes
+                return
             if ((data[1] - 1) & 0x0F) >> 1 == j1939.Command.OPERATION_COMPLETED.value:
                 # the closing message of a transaction is handled by the server object itself (it subscribes for
                 # it before it announces the completion): it is neither a new request nor one to be refused as busy
